@@ -222,7 +222,10 @@ def nontrivial(r):
 
 # ---- asyncio share
 from .. import aiomix  # noqa: E402
-from . import c18 as _c18  # noqa: E402
+from . import c17 as _c17, c18 as _c18  # noqa: E402
 
-aiomix.install(globals(), 0.2, lambda rng: aiomix.stream(rng, _c18.scenarios), aiomix.c11_specs,
-               note="C18-style histories; Spec at every quiescent point: registered = created - deleted - exhausted, delete_job of an unregistered job raises and changes nothing, queries are pure")
+aiomix.install(globals(), 0.2,
+               lambda rng: aiomix.alternate(aiomix.stream(rng, _c18.scenarios),
+                                            aiomix.stream(rng, _c17.scenarios, tweak=aiomix.past_window_tweak)),
+               aiomix.c11_specs,
+               note="C18-style histories (deletions, coroutines using their scheduler) alternating with C17-style job lives (starts and stops in the past and future, batched lists, skip); Spec at every quiescent point: registered = created - deleted - exhausted, delete_job of an unregistered job raises and changes nothing, queries are pure")
